@@ -132,13 +132,60 @@ def all_cfgs(rail_shapes, carries=("messages",)):
 SC_ID = P.SC_ID
 
 
-def eff_in(case):
-    """Configured input rails in order (the shipped `self check input` is rail SC_ID, configured last)."""
+def eff_in(case, tc=None):
+    """Configured input rails in order (the shipped `self check input` is rail SC_ID, configured last); with a turn: the rails
+    enabled for THAT call (Colang 1.0 `options={"rails": {"input": False}}` switches them off for the call)."""
+    if tc is not None and case["ver"] == "1.0" and tc.get("opts") is not None and not tc["opts"].get("input", True):
+        return []
     return list(case["in"]) + ([SC_ID] if case.get("sc") else [])
 
 
-def eff_out(case):
+def eff_out(case, tc=None):
+    if tc is not None and case["ver"] == "1.0" and tc.get("opts") is not None and not tc["opts"].get("output", True):
+        return []
     return list(case["out"]) + ([SC_ID] if case.get("sc") else [])
+
+
+OPTS = {"noin": {"input": False, "output": True}, "noout": {"input": True, "output": False}, "none": {"input": False, "output": False},
+        "all": {"input": True, "output": True}, None: None}
+OPTS_SEQS = {
+    "in": [["noin", None, None], [None, "noin", None], ["noin", "all", None], ["none", None, "noin", None], ["noin", "noout", None]],
+    "out": [["noout", None, None], [None, "noout", None], ["noout", "all", None], ["none", None, "noout", None], ["noout", "noin", None]],
+}
+
+
+def options_cases(rng, tier, side):
+    """Colang 1.0 conversations (history through `state=` and through messages+cache) whose calls MIX explicit generation
+    options - switching the side's rails off for that one call - with calls that pass NO options (all rails enabled again).
+    In the turns whose rails are enabled, a rail of the side rejects / rewrites, so that a skipped rail shows in the reply."""
+    cases = []
+    rails = {"in": ([0, 1], [0]), "out": ([0], [0, 1])}[side]
+    key = "vin" if side == "in" else "vout"
+    for carry in ("state", "messages"):
+        for dialog in (False, True):
+            for exc in ((False, True) if tier == "thorough" else (False,)):
+                for seq in OPTS_SEQS[side]:
+                    for what in (("r", "w") if tier == "thorough" or carry == "state" else ("r",)):
+                        cfg = {"ver": "1.0", "dialog": dialog, "exc": exc, "in": list(rails[0]), "out": list(rails[1]), "carry": carry, "gen": "std"}
+                        turns = [clean_turn(rng, cfg, k + 1) for k in range(len(seq))]
+                        for k, (t, o) in enumerate(zip(turns, seq)):
+                            t["opts"] = OPTS[o]
+                            rid = (cfg["in"] if side == "in" else cfg["out"])[-1]
+                            v = ["w", rewrite_text(rng, side, k + 1)] if what == "w" else "r"
+                            t[key] = [[i, (v if i == rid else vv)] for i, vv in t[key]]
+                        cfg["turns"] = turns
+                        cases.append(cfg)
+    return cases
+
+
+def random_opts(rng, case, p=0.5):
+    """Give the calls of a generated Colang 1.0 conversation (standard generation mode) random generation options."""
+    if case["ver"] != "1.0" or case.get("gen", "std") != "std":
+        return case
+    for t in case["turns"]:
+        if rng.random() < p:
+            t["opts"] = OPTS[rng.choice(["noin", "noout", "none", "all"])]
+    return case
 
 
 def add_selfcheck(rng, cfg, p_block=0.3):
@@ -206,6 +253,15 @@ REPEAT_PATTERNS = [
     [("A", "ok"), ("B", "f1"), ("Am", "ok")],
     [("A", "ok"), ("B", "x"), ("A", "ok")],
     [("A", "w"), ("B", "x"), ("A", "w")],
+]
+
+
+# the BOT MESSAGE that repeats is the predefined refusal: an input rail refuses (bot message M), a later turn's LLM text L is
+# hidden by an output-rail fault, then an input rail refuses again - the first `$bot_message` of that turn is M once more
+REFUSAL_REPEAT = [
+    [("A", "r"), ("B", "x"), ("C", "r")],
+    [("A", "r"), ("B", "x"), ("A", "r"), ("B", "ok")],
+    [("A", "ok"), ("B", "r"), ("C", "x"), ("C", "x"), ("A", "r")],
 ]
 
 
@@ -368,7 +424,8 @@ def ctx_request(case):
     return {
         "m": "C02.ctx", "drop": False,
         "in": [[r, P.is_pure(r)] for r in eff_in(case)], "out": [[r, P.is_pure(r)] for r in eff_out(case)],
-        "turns": [{"user": t["user"], "bot": t["bot"], "vin": t.get("vin", []), "vout": t.get("vout", []), "dialog_fault": dialog_fault(t)} for t in case["turns"]],
+        "turns": [{"user": t["user"], "bot": t["bot"], "vin": t.get("vin", []), "vout": t.get("vout", []), "dialog_fault": dialog_fault(t),
+                   "no_in": not eff_in(case, t) and bool(eff_in(case)), "no_out": not eff_out(case, t) and bool(eff_out(case))} for t in case["turns"]],
     }
 
 
@@ -384,7 +441,9 @@ def _conv_requests(case, method):
                 "single_call": case["ver"] == "1.0" and case.get("gen") == "single",
                 "nostop_in": case.get("nostop_in", []), "nostop_out": case.get("nostop_out", [])},
         "turns": [{"user": t["user"], "bot": t["bot"], "intent": t.get("intent", "free"), "vin": t.get("vin", []), "vout": t.get("vout", []),
-                   "act_fault": bool(t.get("act_fault")), "retr_fault": bool(t.get("retr_fault"))} for t in case["turns"]],
+                   "act_fault": bool(t.get("act_fault")), "retr_fault": bool(t.get("retr_fault")),
+                   # the rails enabled for THIS call (1.0 generation options)
+                   "no_in": not eff_in(case, t) and bool(eff_in(case)), "no_out": not eff_out(case, t) and bool(eff_out(case))} for t in case["turns"]],
     }]
 
 
@@ -495,7 +554,7 @@ def reply_text(rep):
 
 def tags(case, obs):
     t = [f"ver:{case['ver']}", f"dialog:{int(bool(case['dialog']))}", f"exc:{int(bool(case['exc']))}", f"n_in:{len(eff_in(case))}", f"n_out:{len(eff_out(case))}", f"selfcheck:{int(bool(case.get('sc')))}",
-         f"turns:{len(case['turns'])}", f"carry:{case.get('carry')}", f"gen:{case.get('gen', 'std') if case['ver'] == '1.0' else '2.x'}", f"front:{int(bool(case.get('front')))}"]
+         f"turns:{len(case['turns'])}", f"carry:{case.get('carry')}", f"trail:{case.get('trail') or '-'}", f"gen:{case.get('gen', 'std') if case['ver'] == '1.0' else '2.x'}", f"front:{int(bool(case.get('front')))}"]
     if case["ver"] == "2.x" and not case["dialog"]:
         t.append("usaid:" + case.get("usaid", "something"))
     for tc, to in zip(case["turns"], obs["turns"]):
@@ -522,6 +581,9 @@ def tags(case, obs):
         if tc.get("retr_fault") and any(s[0] == "act" and s[1] == "retrieve" for s in to["steps"]):
             t.append("retrieve-action-fault")
         t.append("intent:" + tc.get("intent", "free"))
+        if case["ver"] == "1.0":
+            o = tc.get("opts")
+            t.append("opts:" + ("-" if o is None else ("in" if o.get("input", True) else "") + ("out" if o.get("output", True) else "") or "none"))
     return t
 
 
@@ -553,12 +615,16 @@ def shrink(case):
         for key in ("act_fault", "retr_fault"):
             if t.get(key):
                 yield dict(case, turns=ts[:i] + [dict(t, **{key: False})] + ts[i + 1:])
+        if t.get("opts") is not None and t["opts"] != OPTS["all"]:
+            yield dict(case, turns=ts[:i] + [dict(t, opts=OPTS["all"])] + ts[i + 1:])
     for key in ("in", "out"):
         l = case[key]
         for i in range(len(l)):
             yield dict(case, **{key: l[:i] + l[i + 1:]})
     if case.get("front"):
         yield dict(case, front=False)
+    if case.get("trail"):
+        yield dict(case, trail=None)
     if case["dialog"] and case["ver"] == "1.0" and case.get("gen") != "single":
         yield dict(case, dialog=False)
     if case["ver"] == "1.0" and case.get("gen", "std") not in ("std",):
@@ -614,6 +680,12 @@ SIG_FRESH = "v1-stateless-history-fault-resumes-earlier-turn"
 SIG_STALE = "v1-stale-context-after-hidden-turn"
 SIG_FLAG = "v2-output-rails-skipped-after-abort"
 SIG_SC = "self-check-output-continues-after-exception"
+SIG_TRAIL = "v1-trailing-message-bypasses-input-rails"
+
+
+def trailing_message_request(case, obs, k):
+    """Colang 1.0 and the failing turn's request had a non-user message AFTER the new user message"""
+    return case["ver"] == "1.0" and bool(case.get("trail")) and k is not None
 
 
 def selfcheck_output_blocked_in_exception_mode(case, obs, k):
@@ -624,12 +696,14 @@ def selfcheck_output_blocked_in_exception_mode(case, obs, k):
     return any(s[2] == SC_ID and verdict_of(tc, "out", SC_ID) == "r" for s in rail_calls(to, "out"))
 
 
-def region_signature(case, obs, msg, oracle_codes_stale=(), oracle_codes_flag=(), oracle_codes_sc=(), oracle_codes_fresh=()):
+def region_signature(case, obs, msg, oracle_codes_stale=(), oracle_codes_flag=(), oracle_codes_sc=(), oracle_codes_fresh=(), oracle_codes_trail=()):
     """Structural signature of a failing case: which recorded defect region (if any) it lies in.
     `msg` starts with "turn N: [code] …" for oracle failures; comparison failures carry no code."""
     k = failing_turn(msg)
     m = _re.match(r"turn \d+: \[([a-z-]+)\]", msg or "")
     code = m.group(1) if m else None
+    if trailing_message_request(case, obs, k) and oracle_codes_trail and (code is None or code in oracle_codes_trail):
+        return SIG_TRAIL
     if selfcheck_output_blocked_in_exception_mode(case, obs, k) and code is not None and code in oracle_codes_sc:
         return SIG_SC
     if stateless_fault_turn(case, obs, k) and (code is None or code in oracle_codes_fresh):
